@@ -19,7 +19,7 @@ Batch(ls) == \* ls: sequence of lengths
   /\ UNCHANGED <<pending, taken, removed, clock, done>>
 Ext(kind) ==
   /\ ~done /\ Len(hist) < GenLen /\ Len(hist) >= 1 /\ hist[Len(hist)].a = "write"
-  /\ IF kind = "remove" THEN R!ExtRemove ELSE R!ExtRename
+  /\ CASE kind = "remove" -> R!ExtRemove [] kind = "rename" -> R!ExtRename [] OTHER -> R!Reopen
   /\ hist' = Append(hist, [a |-> kind, lines |-> <<>>])
   /\ UNCHANGED done
 Emit == /\ ~done /\ Len(hist) >= 1
@@ -30,7 +30,7 @@ Emit == /\ ~done /\ Len(hist) >= 1
         /\ UNCHANGED <<pending, active, rotated, taken, removed, damaged, clock, nextId, serial, hist>>
 Batches == { <<a>> : a \in MCLens } \cup { <<a, b>> : a \in MCLens, b \in MCLens }
            \cup { <<a, b, c>> : a \in {20, 512, 1004}, b \in {20, 513, 1024}, c \in {20, 511, 2049} }
-GNext == (\E b \in Batches : Batch(b)) \/ Ext("remove") \/ Ext("rename") \/ Emit
+GNext == (\E b \in Batches : Batch(b)) \/ Ext("remove") \/ Ext("rename") \/ Ext("reopen") \/ Emit
 GSpec == GInit /\ [][GNext]_<<pending, active, rotated, taken, removed, damaged, clock, nextId, serial, hist, done>>
 GInv == R!AllKept /\ R!SizeOK /\ R!NamesDistinct
 =============================================================================
